@@ -561,4 +561,7 @@ def extra_validation():
             ["a ? b : c", "a ? b :c", "a?b:c"], ['"x  " + y', '"x " + y', '"x" + y'], ["f(a, b) // t\n.g()", "f(a, b) // t .g()"], ["[1, 2][0]", "[1,2] [0]"],
             ["1 // one\n + 2 // two\n + 4"], ["// lead\n1 + 2 // trail"], ["x > 1 // lo\n && x < 10 // hi"], ["a // 1\n// 2\n// 3\n+ b"], ["f(a, // x\n b // y\n)"],
             ["1 // one\n\n + 2 // two"], ["// only a comment\n// and another\nx"]]
-    return [{"check": "c06.layout_sequence", "args": {"texts": t}} for t in seqs]
+    # the same text compiled, evaluated under both runner classes, and compiled again by the same Environment (enumeration)
+    used = ["f()", "f() + 1", "x.g()", "[f(), f()]", "f(x)", "has(m.k)", "dyn(x)", "[1, 2].map(y, y + f())", "x > 0 ? f() : 1", "m.k + x", "size([x])", "!g()", "-x", "{'a': f()}",
+            "[x].exists(y, g())", "timestamp('2020-01-01T00:00:00Z').getHours()", "x in [1, 2, 3]", "f() == f() || g()"]
+    return [{"check": "c06.layout_sequence", "args": {"texts": t}} for t in seqs] + [{"check": "c06.reparse_after_use", "args": {"text": t}} for t in used]
